@@ -134,6 +134,17 @@ CLAIMED = {
         note="trusted: pdtv + z3; the placement oracle (pdtv/spec/clause_model.py); SQL engines follow the standard evaluation order; bound: abstract state enumeration on small tables; "
         "join / union operand placement not yet covered",
     ),
+    "C16": dict(
+        category="other",
+        text="Bounded stand-ins of three kinds: (symbolic names, inductive step) alias() maps every in-scope uuid bijectively onto fresh uuids and the Cache is the isomorphic image (unchanged for "
+        "keep_col_refs=True), transfer_col_references keeps names/order, takes the uuids of ref_source by name and raises ValueError iff a name is missing; (structural contracts on real nodes, "
+        "child clone = contract incl. out-of-scope uuids) every _clone implementation returns a fresh node, leaves the original untouched, re-roots every column reference through uuid_map / "
+        "nd_map, gives fresh uuids to new columns and re-keys an alias' map; (native execution) collect() keeps names, order, data, types, origin references and grouping on 8 pipelines, "
+        "self-joins of aliased tables run on Polars and SQLite with distinct SQL aliases.",
+        design_ref="DESIGN.md §5.16",
+        technique="symbolic step harness + structural clone contracts + native execution (all bounded)",
+        note="trusted: pdtv + z3; bounded in table width / node instances / pipelines; Polars and SQLite execution for X3/X5",
+    ),
 }
 
 NOT_YET = "check not built yet (engine under construction); will be claimed as soon as its obligations discharge"
